@@ -3,7 +3,7 @@
 # (a, b: round 1, /tmp/seed/<ID>.out; c, d: round 2, /tmp/seed/<ID>.out2; e, f: round 3, /tmp/seed/<ID>.out3)
 id=$1; x=$2; shift 2
 out=/tmp/seed/$id.out
-case $x in c|d) out=/tmp/seed/$id.out2;; e|f) out=/tmp/seed/$id.out3;; g|h) out=/tmp/seed/$id.out4;; i|j) out=/tmp/seed/$id.out5;; esac
+case $x in c|d) out=/tmp/seed/$id.out2;; e|f) out=/tmp/seed/$id.out3;; g|h) out=/tmp/seed/$id.out4;; i|j|k) out=/tmp/seed/$id.out5;; esac
 dst=/verif/seeded/${id}${x}
 mkdir -p $dst
 cp $out/$x.patch.diff $dst/patch.diff; cp $out/$x.demo.py $dst/demo.py; cp $out/$x.meta.json $dst/meta.agent.json 2>/dev/null
